@@ -62,10 +62,13 @@ class JonesMatrixOpticalElement(AgnosticOpticalElement):
             else:
                 electric_field = instance_data.jones_matrix[..., np.newaxis] * wavefront.electric_field
 
+            # The result lives on the grid of the wavefront, not on that of the Jones matrix.
+            electric_field = Field(electric_field, wavefront.electric_field.grid)
+
             return Wavefront(electric_field, wavelength=wavefront.wavelength, input_stokes_vector=[1, 0, 0, 0])
         else:
             wf = wavefront.copy()
-            wf.electric_field = field_dot(instance_data.jones_matrix, wf.electric_field)
+            wf.electric_field = Field(field_dot(instance_data.jones_matrix, wf.electric_field), wavefront.electric_field.grid)
 
             return wf
 
@@ -90,10 +93,13 @@ class JonesMatrixOpticalElement(AgnosticOpticalElement):
             else:
                 electric_field = field_conjugate_transpose(instance_data.jones_matrix)[..., np.newaxis] * wavefront.electric_field
 
+            # The result lives on the grid of the wavefront, not on that of the Jones matrix.
+            electric_field = Field(electric_field, wavefront.electric_field.grid)
+
             return Wavefront(electric_field, wavelength=wavefront.wavelength, input_stokes_vector=[1, 0, 0, 0])
         else:
             wf = wavefront.copy()
-            wf.electric_field = field_dot(field_conjugate_transpose(instance_data.jones_matrix), wf.electric_field)
+            wf.electric_field = Field(field_dot(field_conjugate_transpose(instance_data.jones_matrix), wf.electric_field), wavefront.electric_field.grid)
 
             return wf
 
